@@ -272,6 +272,11 @@ def generate(rng, tier):
         if mode in ("cold", "shared", "wlock"):
             for _ in range(rng.choice([0, 1, 1, 2, 3])):
                 ops.append(_gen_move(rng, st, counter))
+                # first ask again about revisions whose numbers were resolved before the move
+                # (their cached answers are the ones a tip move must invalidate)
+                for _ in range(rng.choice([0, 1, 2])):
+                    if recent:
+                        ops.append(["q", rng.choice(["id2dotted", "id2dotted", "id2revno"]), rng.choice(recent[-6:])])
                 for _ in range(rng.randint(3, 10)):
                     ops.append(["q"] + _gen_query(rng, st, recent))
     return {"fmt": fmt, "specs": specs, "main": main, "other": other, "tags": tags, "ops": ops}
